@@ -564,6 +564,9 @@ def gen_nested_case(rng, cid, scalars=True):
     return objs
 
 
+MIRROR_OP = {'lt': 'gt', 'gt': 'lt', 'le': 'ge', 'ge': 'le', 'eq': 'eq', 'ne': 'ne'}
+
+
 def c16(report, rng, tier, findings):
     n = n_cases(tier, 300, 4000)
     cases = []
@@ -588,8 +591,30 @@ def c16(report, rng, tier, findings):
             conds = [('and', pc, ec)]
         else:
             conds = [('or', ec, ('cmp', 'eq', E, ('lit', ('i', rng.randint(0, 4)))))]
-        cases.append({'id': f'c{i}', 'classes': [('A', '-')], 'objs': objs, 'vars': [(0, 'A', raw)], 'quant': 'an',
-                      'sel': sel, 'cond': conds or None, 'entity': len(sel) == 1})
+        case = {'id': f'c{i}', 'classes': [('A', '-')], 'objs': objs, 'vars': [(0, 'A', raw)], 'quant': 'an',
+                'sel': sel, 'cond': conds or None, 'entity': len(sel) == 1}
+        if rng.random() < 0.3:
+            # ANOTHER variable joined with the flattened element: in each row it keeps the binding that goes with the element
+            npar = len(objs)
+            extra = rng.randint(1, 3)
+            objs = list(objs)
+            for j in range(extra):
+                objs.append((npar + j, 'B', {'a': ('i', rng.randint(0, 4)), 'b': ('i', 0), 's': ('s', 'ab'), 'flag': ('b', 0),
+                                             'items': ('l',), 't': ('t', ('i', 0), ('i', 1)), 'ref': ('o', 0)}))
+            Y = ('var', 1)
+            ya = ('attr', 'a', Y)
+            op = rng.choice(('eq', 'eq', 'ne', 'lt', 'ge'))
+            join = ('cmp', op, E, ya) if rng.random() < 0.5 else ('cmp', MIRROR_OP[op], ya, E)
+            conds2 = [join] if rng.random() < 0.6 else [rng.choice([('and', pc, join), ('and', join, pc), ('or', join, ec)])]
+            if rng.random() < 0.15:
+                conds2 = conds            # the other variable is unrelated: combined freely
+            sel2 = [t for t in (P, E, Y) if t in (E,) or rng.random() < 0.6]
+            rng.shuffle(sel2)
+            case = {'id': f'c{i}', 'classes': [('A', '-'), ('B', '-')], 'objs': objs,
+                    'vars': [(0, 'A', raw), (1, 'B', [('o', npar + j) for j in range(extra)])], 'quant': 'an',
+                    'sel': sel2, 'cond': conds2 or None, 'entity': len(sel2) == 1, 'two_vars': True}
+            report.count('with_a_second_variable')
+        cases.append(case)
         if rng.random() < 0.4:
             cases[-1]['pre_take'] = rng.randint(1, 4)
             report.count('after_an_abandoned_evaluation')
@@ -598,7 +623,8 @@ def c16(report, rng, tier, findings):
                    "parent, on the element, both, or a disjunction on the element; 40% of the cases are evaluated after an "
                    "evaluation of the same query that was abandoned after 1-4 rows; rows compared with the UNNEST oracle as a multiset "
                    "when parent and element are selected and no collection repeats an element, as a set otherwise; non-trivial = at "
-                   "least two parents with non-empty collections")
+                   "least two parents with non-empty collections; 30% of the cases have a second variable joined (or not) with the "
+                   "flattened element and selected or not")
 
     def nontriv(case, res):
         return sum(1 for _, _, a in case['objs'] if a['items'] != ('l',)) >= 2
